@@ -85,7 +85,7 @@ func runC04(c *Ctx) bool {
 		c.Progress(false)
 	}
 	// wide parents around 32 / 64 / 128 / 256 children with repeated names, spines deeper than 64 levels
-	for _, w := range []int{31, 32, 33, 34, 63, 64, 65, 66, 127, 128, 129, 255, 256, 257, -66, -130} {
+	for _, w := range []int{31, 32, 33, 34, 63, 64, 65, 66, 127, 128, 129, 255, 256, 257, -66, -130, 0} {
 		i := idx
 		idx++
 		if !c.Mine(i) {
@@ -94,6 +94,8 @@ func runC04(c *Ctx) bool {
 		cs := &Case{Idx: i, Kind: "wide-or-deep", Seed: uint64(i)}
 		if w > 0 {
 			cs.Depths, cs.Names = gen.WideDup(w, []int{0, w / 2, w - 2, w - 1})
+		} else if w == 0 {
+			cs.Depths, cs.Names = gen.LongDup()
 		} else {
 			cs.Depths, cs.Names = gen.DeepMixed(-w)
 		}
